@@ -94,22 +94,47 @@ class RunGroup:
         return os.path.join(self.root, "target", "debug", "harness")
 
     # -- isolated confirmation of a dropped case -----------------------------------------
-    def confirm_alone(self, case, hooks=True):
-        """build the case in a crate of its own; -> (compiles?, errors)"""
+    def confirm_alone(self, case, hooks=True, context=()):
+        """build the case in a crate of its own (after `context`: the cases which precede it in its corpus crate);
+        -> (compiles?, errors attributed to the case or, alone, all errors)"""
         iso = os.path.join(WORK, "iso-%s-%s-%06d" % (self.name, self.tier, case.id))
         shutil.rmtree(iso, ignore_errors=True)
         try:
             emit.emit_workspace(iso, ["one"])
-            emit.emit_case_crate(iso, "one", [case], no_std=case.context.startswith("nostd"))
+            emit.emit_case_crate(iso, "one", list(context) + [case], no_std=case.context.startswith("nostd"))
             rc, msgs, err, secs = build.run_cargo(
                 iso, ["build", "--offline", "-p", "one"],
                 env={"CARGO_TARGET_DIR": os.path.join(self.root, "target-iso")}, timeout=3600)
             errors = build.compiler_errors(msgs)
             if rc != 0 and not errors:
                 raise Inconclusive("isolated build of case %d failed without diagnostics: %s" % (case.id, err[-2000:]))
+            if context:
+                by_case, _ = build.attribute(errors)
+                mine = by_case.get(case.id, [])
+                return not mine, mine
             return rc == 0, errors
         finally:
             shutil.rmtree(iso, ignore_errors=True)
+
+    def confirm_dropped(self, case):
+        """A dropped case is rebuilt alone; if it compiles alone it is rebuilt once more after the cases which
+        precede it in its corpus crate (the derive must not carry state from one expansion to the next: a user's
+        crate holds many enums).  -> (compiles?, errors, how) with how in {"alone", "after-other-enums", "flaky"}"""
+        ok, errors = self.confirm_alone(case)
+        if not ok:
+            return False, errors, "alone"
+        before = []
+        for name, ns, cs in self.plan():
+            ids = [c.id for c in cs]
+            if case.id in ids:
+                before = cs[:ids.index(case.id)]
+                break
+        if not before:
+            return True, [], "flaky"
+        ok2, errors2 = self.confirm_alone(case, context=before)
+        if ok2:
+            return True, [], "flaky"
+        return False, errors2, "after-other-enums"
 
     # -- run ---------------------------------------------------------------------------
     def run(self, props, budget, mode="native", only=None, sets=None, nshards=None,
